@@ -23,6 +23,7 @@ mod images;
 mod corrupt;
 mod ffi;
 mod randexpr;
+mod streamio;
 
 use std::collections::HashMap;
 
@@ -83,6 +84,7 @@ fn main() {
         "corrupt" => corrupt::main(&args),
         "ffi" => ffi::main(&args),
         "randexpr" => randexpr::main(&args),
+        "streamio" => streamio::main(&args),
         "summary-random" => summary::random_main(&args),
         "repr" => {
             // representability facts (reference encoder) for the characters the bounded models use
